@@ -461,6 +461,7 @@ pub fn generate(family: &str, size: usize, seed: u64) -> Vec<String> {
         "w_fa" => writer_cases("fa", &mut rng, if size >= 100000 { 8 } else { 6 }, size, &mut out),
         "w_fq" => writer_cases("fq", &mut rng, 0, size, &mut out),
         "par_x" => par_x(&mut rng, size, &mut out),
+        "par_z" => par_z(&mut rng, size, &mut out),
         "iter" => iter_cases(size, &mut out),
         "fa_json" => json_cases("fa", &mut rng, size, &mut out),
         "fq_json" => json_cases("fq", &mut rng, size, &mut out),
@@ -989,5 +990,24 @@ pub fn iter_cases(maxlen: usize, out: &mut Vec<String>) {
         for w in words {
             out.push(format!("I {} {}", n, if w.is_empty() { "-".to_string() } else { w }));
         }
+    }
+}
+
+/// the `_init` variants of the per-record functions with failing initialisers and early exit
+pub fn par_z(rng: &mut Rng, size: usize, out: &mut Vec<String>) {
+    for _ in 0..size {
+        let fmt = if rng.chance(1, 2) { "fa" } else { "fq" };
+        let nrec = rng.range(1, 9);
+        let crlf = if rng.chance(1, 4) { 1 } else { 0 };
+        let input = if fmt == "fa" { valid_fasta(rng, nrec, crlf, true, false) } else { valid_fastq(rng, nrec, crlf, true, 0) };
+        let t = rng.range(1, 3);
+        let q = rng.range(1, 3);
+        let cap = *rng.pick(&[4096usize, 4096, 4096, 16, 64]);
+        let ri = rng.chance(1, 8);
+        let rset = if rng.chance(1, 6) { Some(rng.below(q + 2)) } else { None };
+        let rec = if rng.chance(1, 2) { Some(rng.below(nrec + 1)) } else { None };
+        let stop = if rng.chance(1, 2) { Some(rng.range(1, nrec)) } else { None };
+        let o = |x: Option<usize>| x.map(|v| v.to_string()).unwrap_or("-".to_string());
+        out.push(format!("Z {} {} {} {} {} {} {} {} {}", fmt, t, q, cap, ri as u8, o(rset), o(rec), o(stop), hex_or_dash(&input)));
     }
 }
